@@ -67,11 +67,18 @@ def iszero (a t : α) : Bool := if abs a ≤ t then true else false
 /-- `equal`: `abs (a - b) <= t` -/
 def equal (a b t : α) : Bool := decide (abs (a - b) ≤ t)
 
+/-- `ulerp` at `T = unsigned int` (what the function exists for): `a - b` / `b - a` are UNSIGNED subtractions
+(wrap modulo 2^32), the products and sums are computed in `Q` after the conversion `cast : unsigned → Q` -/
+def ulerpU (cast : Nat → α) (a b : Nat) (t : α) : α :=
+  if a > b then cast a - cast ((a + 4294967296 - b) % 4294967296) * t
+  else cast a + cast ((b + 4294967296 - a) % 4294967296) * t
+
 /-! ### ImathFun.h 110-130: floor / ceil / trunc through `int(x)` casts -/
 
-/-- `floor`: `(x >= 0) ? int (x) : -(int (-x) + (-x > int (-x)))` -/
+/-- `floor` (as repaired in /repo commit 04462ef): `(x >= 0) ? int (x) : -int (-x) - (-x > int (-x))`
+(before it: `-(int (-x) + (-x > int (-x)))`, whose sum was INT_MAX + 1 for x in (-2^31, -(2^31 - 1))) -/
 def floor [IntCast α] (toInt : α → Int) (x : α) : Int :=
-  if x ≥ 0 then toInt x else -(toInt (-x) + (if -x > ((toInt (-x) : Int) : α) then 1 else 0))
+  if x ≥ 0 then toInt x else -toInt (-x) - (if -x > ((toInt (-x) : Int) : α) then 1 else 0)
 
 /-- `ceil`: `-floor (-x)` -/
 def ceil [IntCast α] (toInt : α → Int) (x : α) : Int := -floor toInt (-x)
@@ -82,8 +89,21 @@ def trunc (toInt : α → Int) (x : α) : Int := if x ≥ 0 then toInt x else -t
 /-- the int-typed intermediate values `floor` computes (for the 32-bit overflow statement) -/
 def floorSteps [IntCast α] (toInt : α → Int) (x : α) : List Int :=
   if x ≥ 0 then [toInt x]
+  else [toInt (-x), -toInt (-x), -toInt (-x) - (if -x > ((toInt (-x) : Int) : α) then 1 else 0)]
+
+/-- the intermediates of the expression BEFORE commit 04462ef, kept to state what the defect was -/
+def floorStepsOld [IntCast α] (toInt : α → Int) (x : α) : List Int :=
+  if x ≥ 0 then [toInt x]
   else [toInt (-x), toInt (-x) + (if -x > ((toInt (-x) : Int) : α) then 1 else 0),
         -(toInt (-x) + (if -x > ((toInt (-x) : Int) : α) then 1 else 0))]
+
+/-- the int-typed intermediate values `ceil` computes: those of `floor (-x)` and the final negation -/
+def ceilSteps [IntCast α] (toInt : α → Int) (x : α) : List Int :=
+  floorSteps toInt (-x) ++ [-(floor toInt (-x))]
+
+/-- the int-typed intermediate values `trunc` computes -/
+def truncSteps (toInt : α → Int) (x : α) : List Int :=
+  if x ≥ 0 then [toInt x] else [toInt (-x), -toInt (-x)]
 
 /-! ### ImathMath.h 125-166 -/
 
@@ -121,7 +141,7 @@ def divp (x y : Int) : Int :=
   if x ≥ 0 then (if y ≥ 0 then x.tdiv y else -(x.tdiv (-y)))
   else (if y ≥ 0 then -1 - ((-(x + 1)).tdiv y) else 1 + ((-(x + 1)).tdiv (-y)))
 
-/-- `modp`: `x - y * divp (x, y)` -/
+/-- `modp`: `x - y * divp (x, y)` (value; see `modpSteps` for how it is computed) -/
 def modp (x y : Int) : Int := x - y * divp x y
 
 /-- every int-typed intermediate value the C++ expression of `divs` computes on
@@ -139,7 +159,12 @@ def divpSteps (x y : Int) : List Int :=
   else (if y ≥ 0 then [x + 1, -(x + 1), (-(x + 1)).tdiv y, -1 - ((-(x + 1)).tdiv y)]
         else [x + 1, -(x + 1), -y, (-(x + 1)).tdiv (-y), 1 + ((-(x + 1)).tdiv (-y))])
 
-def modpSteps (x y : Int) : List Int := divpSteps x y ++ [y * divp x y, x - y * divp x y]
+/-- `modp` (as repaired in /repo commit f9bac53) computes `x - y * divp (x, y)` in UNSIGNED arithmetic and converts the
+result, which lies in [0, |y|), back: no int intermediate beyond those of `divp` -/
+def modpSteps (x y : Int) : List Int := divpSteps x y
+
+/-- the int intermediates BEFORE commit f9bac53 (`x - y * divp (x, y)` in int arithmetic), kept to state what the defect was -/
+def modpStepsOld (x y : Int) : List Int := divpSteps x y ++ [y * divp x y, x - y * divp x y]
 
 /-- the subset of `divpSteps` that are *negations* (the property's wording) -/
 def divpNegations (x y : Int) : List Int :=
@@ -177,6 +202,23 @@ def divp32 (x y : Int) : Option Int :=
         else (div32 (neg32 (wrap32 (x + 1))) (neg32 y)).map fun q => wrap32 (1 + q))
 
 def modp32 (x y : Int) : Option Int := (divp32 x y).map fun q => wrap32 (x - wrap32 (y * q))
+
+/-! `floor / ceil / trunc` with MACHINE `int` intermediates: every `int` operation (`+`, unary `-`) wraps to 32 bits,
+exactly as `divs32` ... above.  (`toInt` is the cast; the theorems assume it only for |y| < 2^31.) -/
+section Machine
+variable {α : Type} [Neg α] [LT α] [LE α] [DecidableLT α] [DecidableLE α] [OfNat α 0] [IntCast α]
+
+/-- `floor` as compiled: `(x >= 0) ? int (x) : -int (-x) - (-x > int (-x))` with wrapping unary and binary `-` -/
+def floor32 (toInt : α → Int) (x : α) : Int :=
+  if x ≥ 0 then toInt x else wrap32 (neg32 (toInt (-x)) - (if -x > ((toInt (-x) : Int) : α) then 1 else 0))
+
+/-- `ceil` as compiled: `-floor (-x)` -/
+def ceil32 (toInt : α → Int) (x : α) : Int := neg32 (floor32 toInt (-x))
+
+/-- `trunc` as compiled -/
+def trunc32 (toInt : α → Int) (x : α) : Int := if x ≥ 0 then toInt x else neg32 (toInt (-x))
+
+end Machine
 
 /-! ### ImathFun.h 193-229, ImathFun.cpp: bit-level predicates, successor / predecessor -/
 
